@@ -184,6 +184,12 @@ def apply_mutation(ex, step, root, pool, mut, fresh):
         root.dchild = pool[ex.choice("pick%d" % step, len(pool))]
     elif mut == "dchild=shared":
         root.dchild = SHARED
+    elif mut in ("del_child", "del_children", "del_mapping", "del_group", "del_tkids"):
+        # back to the default (None / a fresh empty container): a change like any other, announced once
+        try:
+            delattr(root, mut[4:])
+        except Exception:
+            pass
     elif mut == "del_dchild":
         try:
             del root.dchild          # back to the (constant, shared) default
